@@ -148,7 +148,7 @@ def dstep (st : DSt) (line : String) : DSt × String :=
   | ["eager", m] =>
     match parseMap m with
     | some cur =>
-      let s := init repaired (scriptBody st.p) (some cur) cur
+      let s := init repaired (scriptBody st.p) (some cur) cur true
       ({ st with w := some s.w, cur := s.cur }, emit 0 (.send 0) s)
     | none => (st, "bad-op")
   | "op" :: rest =>
